@@ -256,3 +256,62 @@ Proof.
   { intros x Hx. apply andb_true_iff in Hx. destruct Hx as (_ & Hx). now apply none_of_bound in Hx. }
   destruct (highest_spec _ _ Hb) as [(Hn & _)|(HP & _)]; [congruence|]. rewrite Hr in HP. exact HP.
 Qed.
+
+(* ------------------------------------------------------------------ backward searches from a small pos look only at a prefix *)
+
+Lemma highest_same P P' bound bound' :
+  (forall x, P x = P' x) -> (forall x, P x = true -> x < bound) -> (forall x, P' x = true -> x < bound') ->
+  bound <= npos -> highest P bound = highest P' bound'.
+Proof.
+  intros He Hb Hb' Hn. apply highest_char; [assumption|assumption|].
+  destruct (highest_spec P' bound' Hb') as [(Hr & Hall)|(HP & Hmax)].
+  - right. split; [assumption|]. intros y. rewrite He. apply Hall.
+  - left. split; [now rewrite He|]. intros y Hy. rewrite He in Hy. now apply Hmax.
+Qed.
+
+Lemma match_at_takeN h s k x : x + size s <= k -> k <= size h -> match_at (takeN k h) s x = match_at h s x.
+Proof.
+  intros Hx Hk. apply bool_eq_iff. unfold match_at. rewrite !andb_true_iff, !N.leb_le, !forallN_spec, size_takeN. split.
+  - intros (_ & He). split; [lia|]. intros i Hi. rewrite <- (nthN_takeN h k) by lia. now apply He.
+  - intros (_ & He). split; [lia|]. intros i Hi. rewrite nthN_takeN by lia. now apply He.
+Qed.
+
+Theorem rfind_prefix h s pos : size h < npos -> pos + size s <= size h ->
+  SV.rfind h s pos = SV.rfind (window h 0 (pos + size s)) s pos.
+Proof.
+  intros Hh Hp. unfold window. rewrite dropN_0.
+  rewrite !sv_eq_std_rfind by (rewrite ?size_takeN; lia). unfold StdSV.rfind.
+  apply highest_same.
+  - intros x. destruct (N.leb_spec x pos); [|reflexivity]. cbn [andb]. symmetry. apply match_at_takeN; lia.
+  - intros x Hx. apply andb_true_iff in Hx. destruct Hx as (_ & Hx). now apply match_at_bound in Hx.
+  - intros x Hx. apply andb_true_iff in Hx. destruct Hx as (_ & Hx). now apply match_at_bound in Hx.
+  - lia.
+Qed.
+
+Theorem find_last_of_prefix h s pos : size h <= npos -> pos < size h ->
+  SV.find_last_of h s pos = SV.find_last_of (window h 0 (pos + 1)) s pos.
+Proof.
+  intros Hh Hp. unfold window. rewrite dropN_0.
+  rewrite !sv_eq_std_find_last_of by (rewrite ?size_takeN; lia). unfold StdSV.find_last_of.
+  apply highest_same.
+  - intros x. destruct (N.leb_spec x pos); [|reflexivity]. cbn [andb]. unfold one_of.
+    rewrite size_takeN, nthN_takeN by lia.
+    destruct (N.ltb_spec x (size h)), (N.ltb_spec x (N.min (pos + 1) (size h))); try lia; reflexivity.
+  - intros x Hx. apply andb_true_iff in Hx. destruct Hx as (_ & Hx). now apply one_of_bound in Hx.
+  - intros x Hx. apply andb_true_iff in Hx. destruct Hx as (_ & Hx). now apply one_of_bound in Hx.
+  - lia.
+Qed.
+
+Theorem find_last_not_of_prefix h s pos : size h <= npos -> pos < size h ->
+  SV.find_last_not_of h s pos = SV.find_last_not_of (window h 0 (pos + 1)) s pos.
+Proof.
+  intros Hh Hp. unfold window. rewrite dropN_0.
+  rewrite !sv_eq_std_find_last_not_of by (rewrite ?size_takeN; lia). unfold StdSV.find_last_not_of.
+  apply highest_same.
+  - intros x. destruct (N.leb_spec x pos); [|reflexivity]. cbn [andb]. unfold none_of.
+    rewrite size_takeN, nthN_takeN by lia.
+    destruct (N.ltb_spec x (size h)), (N.ltb_spec x (N.min (pos + 1) (size h))); try lia; reflexivity.
+  - intros x Hx. apply andb_true_iff in Hx. destruct Hx as (_ & Hx). now apply none_of_bound in Hx.
+  - intros x Hx. apply andb_true_iff in Hx. destruct Hx as (_ & Hx). now apply none_of_bound in Hx.
+  - lia.
+Qed.
